@@ -1252,7 +1252,11 @@ class ASTUnionSelectStatement(ASTSelectStatement):
     def source(self, sql_type: SQLType = SQLType.DEFAULT) -> str:
         """返回语法节点的 SQL 源码"""
         with_clause_str = self.with_clause.source(sql_type) + "\n" if not self.with_clause.is_empty() else ""
-        return with_clause_str + "\n".join(element.source(sql_type) for element in self.elements)
+        # WITH 子句只在组合查询的开头输出一次（各个子查询中保存的是同一个 WITH 子句）
+        return with_clause_str + "\n".join(
+            element.set_with_clauses(ASTWithClause.empty()).source(sql_type)
+            if isinstance(element, ASTSelectStatement) else element.source(sql_type)
+            for element in self.elements)
 
     def set_with_clauses(self, with_clause: Optional[ASTWithClause]) -> ASTSelectStatement:
         params = self.get_params_dict()
